@@ -56,7 +56,7 @@ def run(ctx):
     # exhaustive: update decisions of the transports
     bexe = btcp.build()
     ops = []
-    for st in ("ready", "connecting", "resolving"):
+    for st in ("ready", "connecting", "resolving", "resolving-local", "resolving-local+remote"):
         ops.append("N " + st)
         for cond in range(4):
             for q in range(2):
@@ -67,7 +67,7 @@ def run(ctx):
         ops += ["N ready", "S 6162 - " + e] + ["U %d 0" % c for c in range(4)]
     ops += ["N ready", "R 10 - Z"] + ["U %d 0" % c for c in range(4)]
     # established through the connect phase (every call that can complete it): the connect-phase helpers are gone
-    for start, est in (("connecting", "o"), ("connecting", "a"), ("resolving", "o,o,o"), ("resolving", "o,o,a")):
+    for start, est in (("connecting", "o"), ("connecting", "a"), ("resolving", "o,o,o"), ("resolving", "o,o,a"), ("resolving-local", "o,o,o"), ("resolving-local+remote", "o,o,o,o"), ("resolving-local+remote", "o,a")):
         for call in ("F %s", "S 6162 %s A", "R 10 %s EEAGAIN"):
             ops += ["N " + start, call % est, "F o"] + ["U %d %d" % (c, q) for c in range(4) for q in range(2)]
     ctx.differential("unit_btcp", "btcp", bexe, ops, label="btcp-update-exhaustive")
